@@ -93,6 +93,13 @@ pub struct LinkCfg {
     pub initial_uptime_ms: u64,
     /// link latency: every packet needs this many extra ticks (a scale class, not a deviation)
     pub base_delay_ticks: u32,
+    /// link outage: every packet of either direction emitted in ticks [from, to) is lost (a scale class of
+    /// the baseline, not a deviation: no decision is taken for these packets)
+    pub outage: Option<(u32, u32)>,
+    /// lossy baseline: in ticks [from, to) every second packet (odd position within its flush) of direction `dir` is lost
+    pub alt_drop: Option<(usize, u32, u32)>,
+    /// lossy baseline: in ticks [from, to) every packet of direction `dir` is lost
+    pub dir_outage: Option<(usize, u32, u32)>,
 }
 
 #[derive(Clone, Copy, Debug, PartialEq, Eq)]
@@ -138,6 +145,9 @@ impl LinkCfg {
             gated_sends: false,
             initial_uptime_ms: 0,
             base_delay_ticks: 0,
+            outage: None,
+            alt_drop: None,
+            dir_outage: None,
         }
     }
     pub fn connection_config(&self) -> ConnectionConfig {
@@ -666,12 +676,17 @@ impl<'c> Link<'c> {
                         }
                         _ => false,
                     };
-                    let mut fate = if self.faults_open && cfg.faults_dir[dir] && cfg.fates.len() > 1 {
+                    let in_outage = matches!(cfg.outage, Some((from, to)) if tick >= from && tick < to)
+                        || matches!(cfg.dir_outage, Some((d, from, to)) if d == dir && tick >= from && tick < to)
+                        || matches!(cfg.alt_drop, Some((d, from, to)) if d == dir && tick >= from && tick < to && (i - first) % 2 == 1);
+                    let mut fate = if in_outage {
+                        Fate::Drop
+                    } else if self.faults_open && cfg.faults_dir[dir] && cfg.fates.len() > 1 {
                         cfg.fates[ctx.choose(cfg.fates.len())]
                     } else {
                         Fate::Ok
                     };
-                    if base_drop {
+                    if base_drop && !in_outage {
                         // default answer is Drop, the alternative "Drop" slot means deliver
                         fate = match fate {
                             Fate::Ok => Fate::Drop,
@@ -679,7 +694,7 @@ impl<'c> Link<'c> {
                             f => f,
                         };
                     }
-                    if fate != Fate::Ok {
+                    if fate != Fate::Ok && !in_outage {
                         ctx.note(|| format!("t{} net: pkt{} fate {:?}", tick, i, fate));
                     }
                     let fl = &mut self.flights[dir];
